@@ -252,11 +252,13 @@ impl Run {
         let shards = THREADS.min(cases.max(1));
         let per = (cases + shards - 1) / shards;
         let results: Mutex<Vec<(Stats, Option<(String, Value)>)>> = Mutex::new(Vec::new());
+        let aborts: Mutex<Vec<String>> = Mutex::new(Vec::new());
         let id = self.id;
         let seed = self.seed;
         std::thread::scope(|sc| {
             for shard in 0..shards {
                 let results = &results;
+                let aborts = &aborts;
                 let mk_strategy = &mk_strategy;
                 let check = &check;
                 sc.spawn(move || {
@@ -301,15 +303,19 @@ impl Run {
                             reason.message().to_string(),
                             serde_json::to_value(&value).unwrap_or(Value::Null),
                         )),
-                        Err(TestError::Abort(reason)) => Some((
-                            format!("HARNESS-ABORT: {}", reason.message()),
-                            Value::Null,
-                        )),
+                        Err(TestError::Abort(reason)) => {
+                            // generator trouble (too many rejects): infrastructure, never a violation
+                            aborts.lock().unwrap().push(reason.message().to_string());
+                            None
+                        }
                     };
                     results.lock().unwrap().push((stats.into_inner(), fail));
                 });
             }
         });
+        if let Some(a) = aborts.into_inner().unwrap().first() {
+            self.infra_error = Some(format!("phase {}: proptest aborted: {}", phase, a));
+        }
         let mut stats = Stats::default();
         let mut failure: Option<Failure> = None;
         for (st, f) in results.into_inner().unwrap() {
@@ -463,7 +469,9 @@ impl Run {
     pub fn finish(self, level: &str, rule: &str, assumptions: &[&str]) -> i32 {
         if let Some(e) = &self.infra_error {
             eprintln!("INCONCLUSIVE property={} {}", self.id, e);
-            return 2;
+            if !self.failed() {
+                return 2;
+            }
         }
         let wall = self.started.elapsed().as_secs_f64();
         let mut evaluations = 0u64;
